@@ -184,16 +184,27 @@ class Result:
         self.violations.append(v)
 
 
-def finish(ctx, res):
+def finish(ctx, res, attribute=None):
+    """attribute(ctx, violations, gate) -> list of the violations that disappear when the real code is re-run with
+    the named rewrite gate switched on: those are occurrences of the known finding the gate isolates (identification
+    by call site); everything else stays a violation."""
     known = load_known(ctx.prop)
     new, seen_known = [], {}
     for v in res.violations:
-        k = match_known(known, v)
+        k = match_known([k for k in known if "gate" not in k], v)
         if k is not None:
             seen_known.setdefault(k["id"], (k, 0))
             seen_known[k["id"]] = (k, seen_known[k["id"]][1] + 1)
         else:
             new.append(v)
+    for k in [k for k in known if "gate" in k]:
+        if not new or attribute is None:
+            break
+        explained = attribute(ctx, new, k["gate"])
+        if explained:
+            keys = {json.dumps(v, sort_keys=True) for v in explained}
+            new = [v for v in new if json.dumps(v, sort_keys=True) not in keys]
+            seen_known[k["id"]] = (k, len(explained))
     for kid, (k, n) in seen_known.items():
         print(f"KNOWN-FINDING: property={ctx.prop} {k['id']}: {k['what']} ({n} occurrences this run)")
     # findings listed but not observed in this run are still announced (they are properties of the tree, not of the run)
